@@ -333,6 +333,14 @@ func (fr *Frame) loopCallEffects(pre *State, li *loopInfo, eff *loopEffects, c *
 	if fr.callIsPure(c) {
 		return
 	}
+	if callee != nil && vc.p.contracts[key] == nil && fr.canInline(callee) && fr.effectFree(callee, 0) {
+		// inlinable callee that only reads and allocates
+		*touchAlloc = true
+		for _, k := range allKinds {
+			eff.kinds[vc.heapKey(k)] = true // fresh objects only; pre-existing ones keep their content
+		}
+		return
+	}
 	if _, isModel := models[key]; isModel {
 		// impure models: clock / mutex
 		switch key {
@@ -458,4 +466,96 @@ func (fr *Frame) appendRoot(pre *State, li *loopInfo, s ssa.Value, rootVal func(
 		return Val{}, true, true // declared inside the loop: starts nil
 	}
 	return fr.getLocal(pre, a), true, false
+}
+
+// effectFree: the function (and what it calls) writes only to its own locals
+// and to objects it allocates itself.
+func (fr *Frame) effectFree(fn *ssa.Function, depth int) bool {
+	vc := fr.vc
+	if depth > 4 || fn.Blocks == nil {
+		return false
+	}
+	if v, ok := vc.p.effFree[fn]; ok {
+		return v
+	}
+	vc.p.effFree[fn] = false // recursion guard
+	ok := true
+	nf := &Frame{vc: vc, fn: fn, reg: map[*ssa.Alloc]bool{}}
+	fresh := map[ssa.Value]bool{}
+	for _, b := range fn.Blocks {
+		for _, in := range b.Instrs {
+			if a, isA := in.(*ssa.Alloc); isA {
+				if isRegister(a) {
+					nf.reg[a] = true
+				} else {
+					fresh[a] = true
+				}
+			}
+			switch x := in.(type) {
+			case *ssa.MakeSlice, *ssa.MakeMap:
+				fresh[x.(ssa.Value)] = true
+			}
+		}
+	}
+	var rootFresh func(v ssa.Value, d int) bool
+	rootFresh = func(v ssa.Value, d int) bool {
+		if d > 6 {
+			return false
+		}
+		if fresh[v] {
+			return true
+		}
+		switch x := v.(type) {
+		case *ssa.FieldAddr:
+			return rootFresh(x.X, d+1)
+		case *ssa.IndexAddr:
+			return rootFresh(x.X, d+1)
+		case *ssa.Slice:
+			return rootFresh(x.X, d+1)
+		}
+		return false
+	}
+	for _, b := range fn.Blocks {
+		for _, in := range b.Instrs {
+			switch x := in.(type) {
+			case *ssa.Store:
+				if _, _, _, isLocal := nf.localRoot(x.Addr); isLocal {
+					continue
+				}
+				if !rootFresh(x.Addr, 0) {
+					ok = false
+				}
+			case *ssa.MapUpdate:
+				if !rootFresh(x.Map, 0) {
+					ok = false
+				}
+			case *ssa.Go, *ssa.Send, *ssa.Select, *ssa.Defer:
+				ok = false
+			case ssa.CallInstruction:
+				c := x.Common()
+				if bi, isB := c.Value.(*ssa.Builtin); isB {
+					switch bi.Name() {
+					case "delete", "copy", "clear":
+						ok = false
+					case "append":
+						if !rootFresh(c.Args[0], 0) {
+							// may write in place into a caller-visible array
+							ok = false
+						}
+					}
+					continue
+				}
+				sub := &Frame{vc: vc, fn: fn, depth: fr.depth + 1}
+				if sub.callIsPure(c) {
+					continue
+				}
+				if f, isF := c.Value.(*ssa.Function); isF && inRepo(f) && vc.p.contracts[funcKey(f)] == nil && fr.effectFree(f, depth+1) {
+					continue
+				}
+				ok = false
+			}
+		}
+	}
+	vc.p.effFree[fn] = ok
+	return ok
 }
